@@ -44,6 +44,21 @@ def check(ck):
             first = {"coerce_output": f.positional_params[0], "coerce_input": f.positional_params[2], "parse_literal": f.positional_params[1]}[method]
             ok = c is not None and unparse(c.func.value) == "scalar_type" and [unparse(a) for a in c.args] == [first]
             ck.ob(f"{rel.split('/')[2]}.scalar_coercer delegates to scalar_type.{method}({first})", ok, f, c or f.node, construct=f"delegate:{method}")
+        # the wrappers around the generic coercers short-circuit exactly null
+        from .c04 import input_null_wrapper_table
+        input_null_wrapper_table(ck, repo)
+        for rel, deco in (("tartiflette/coercers/inputs/scalar_coercer.py", "tartiflette.coercers.inputs.null_coercer.null_coercer_wrapper"),
+                          ("tartiflette/coercers/outputs/scalar_coercer.py", "tartiflette.coercers.outputs.null_coercer.null_coercer_wrapper"),
+                          ("tartiflette/coercers/literals/scalar_coercer.py", "tartiflette.coercers.literals.null_and_variable_coercer.null_and_variable_coercer_wrapper")):
+            f = repo.func(rel, "scalar_coercer")
+            from ..q import decorator_names
+            got = [repo.resolve_name(f.module, d) for d in decorator_names(f)]
+            ck.ob(f"{rel.split('/')[2]}.scalar_coercer is wrapped by exactly its side's null wrapper", got == [deco], f, f.node, construct=f"wrapper:{rel.split('/')[2]}", detail=str(got))
+        ow = repo.func("tartiflette/coercers/outputs/null_coercer.py", "null_coercer_wrapper.wrapper")
+        from ..q import FuncView as _FV
+        tests = [n.text() for n in _FV(ow).cfg.nodes if n.kind == "test"]
+        ck.ob("outputs.null_coercer_wrapper short-circuits exactly None (0, 0.0, \"\" and false are serialised by the scalar)", tests == [f"{ow.positional_params[0]} is None"], ow, ow.node,
+              construct="wrapper:outputs:is-none", detail=str(tests))
         # Scalar decorator binds the three methods of the implementation
         b = repo.func("tartiflette/scalar/scalar.py", "Scalar.bake")
         st = {unparse(n.targets[0]): unparse(n.value) for n in walk_no_nested(b.node) if isinstance(n, ast.Assign) and isinstance(n.targets[0], ast.Attribute)}
